@@ -2,21 +2,23 @@ package props
 
 import (
 	"fmt"
+	"go/ast"
 	"go/types"
 	"sort"
 	"strings"
 
 	"verif/internal/an"
+	"verif/internal/flow"
 )
 
 func init() {
 	register(&Property{
-		ID:        "C07",
-		Technique: "static analysis: inter-procedural dependence summaries (data and control dependence on clock/random sources, relative to parameters) over the registry-resolved apply handlers and everything they call; ORDER/GUARD rules on the batch cut in ApplyRaftRequest; idiom classification of map iterations on the apply path",
+		ID:          "C07",
+		Technique:   "static analysis: inter-procedural dependence summaries (data and control dependence on clock/random sources, relative to parameters) over the registry-resolved apply handlers and everything they call; ORDER/GUARD rules on the batch cut in ApplyRaftRequest; idiom classification of map iterations on the apply path",
 		Explanation: "Decides: (T1) on the synchronous apply path (every registered apply handler, ApplyRaftRequest, the batch operator, custom/schema requests, and all module functions they reach through static calls and interface implementations, go statements not followed) no value that depends on the local clock, a random source or process identity reaches a write-batch operation, a decision that controls one, the handler's reply, or the reply handed to the waiting client; (T2) a command that is not batchable is preceded by a commit of the open batch, a key is batched at most once per batch, non-redis requests commit the batch first; (T3) every map iteration on the apply path is order-insensitive by idiom.",
-		NotDecided: "engine-level nondeterminism inside pebble/rocksdb, float formatting, agreement of different engines (C20), leader-vs-follower differences that are not clock/order related, whether the batchable commands only read state of their own key.",
+		NotDecided:  "engine-level nondeterminism inside pebble/rocksdb, float formatting, agreement of different engines (C20), leader-vs-follower differences that are not clock/order related, whether the batchable commands only read state of their own key.",
 		Assumptions: []string{"dependence is tracked per variable (flow-insensitive inside a function) and per struct field for clock-derived values; calls outside the module return values that depend on their arguments only, except the listed sources (time.Now/Since/Until, math/rand, crypto/rand, os.Getpid/Hostname, runtime.NumGoroutine)", "goroutines started on the apply path are not followed (listed in the evidence)", "logging, metrics and slow-log calls have no effect on data"},
-		Run: runC07,
+		Run:         runC07,
 	})
 }
 
@@ -124,6 +126,10 @@ func c07T2(c *Ctx) {
 		r.Check("C07-T2", "IsBatchable: the duplicate test looks the command's key up in the keys of the open batch", "",
 			len(okDef) == 1 && okDef[0].Tuple != nil && u.C.Term(okDef[0].Tuple) == "recv.dupCheckMap[string(p1)]", "")
 	}
+	// every key a batchable command writes is covered by the duplicate check: the check registers cmd.Args[1] only, so
+	// the apply handler of a batchable command hands exactly that key to the store, unless IsBatchable refuses the
+	// command's multi-key form
+	c07BatchableKeys(c)
 	if u := c.unit("C07-T2", "node.(*kvbatchOperator).AddBatchKey"); u != nil {
 		r.StoreValues("C07-T2", u, an.StoreElem("node.kvbatchOperator.dupCheckMap"), []string{"true"}, 1)
 	}
@@ -135,7 +141,9 @@ func c07T2(c *Ctx) {
 	}
 	if u := c.unit("C07-T2", "node.(*KVNode).applyEntries"); u != nil {
 		// the batch never spans two Readys: it is committed at the end of every applyEntries
-		r.Order("C07-T2", u, an.Return().Where("after the loop", func(u *an.Unit, s *an.Site) bool { return len(s.Ret.Results) == 2 && u.C.Term(s.Ret.Results[0]) != "false" }),
+		r.Order("C07-T2", u, an.Return().Where("after the loop", func(u *an.Unit, s *an.Site) bool {
+			return len(s.Ret.Results) == 2 && u.C.Term(s.Ret.Results[0]) != "false"
+		}),
 			[]an.M{an.Call("node.IBatchOperator.CommitBatch")}, an.OrderOpts{Assume: "batch != nil", Min: 1})
 	}
 	// leftovers of a failed command would be committed by the next write on a running replica but lost on a
@@ -201,4 +209,100 @@ func c07T3(c *Ctx) {
 // one named symbol per exception, with the reason
 var mapRangeExceptions = map[string]string{
 	"rockredis.(*TableIndexContainer).marshalHsetIndexes": "the serialized index list is read back into a map keyed by index name (unmarshalHsetIndexes); its order is not observable through any data command",
+}
+
+func c07BatchableKeys(c *Ctx) {
+	r := c.R
+	applies, err := c.W.Registrations("node.(*kvStoreSM).registerHandlers")
+	if err != nil {
+		r.Unknown("C07-T2", "registry of kvStoreSM.registerHandlers", "", err.Error())
+		return
+	}
+	handler := map[string]*an.Unit{}
+	for _, a := range applies {
+		if a.Kind == "RegisterInternal" {
+			handler[a.Name] = a.Unit
+		}
+	}
+	// the batchable set, from the stores into rockredis.batchableCmds
+	var names []string
+	for _, sw := range c.W.AllSites(an.StoreTerm("*").Where("element of batchableCmds", func(u *an.Unit, s *an.Site) bool {
+		return strings.HasPrefix(u.C.Term(s.LHS), "rockredis.batchableCmds[")
+	}), "batchableCmds", []string{"rockredis"}) {
+		ix, ok := ast.Unparen(sw.S.LHS).(*ast.IndexExpr)
+		if !ok {
+			continue
+		}
+		tv := sw.U.Info().Types[ix.Index]
+		if tv.Value == nil {
+			r.Unknown("C07-T2", "batchable command set: "+sw.U.C.Term(ix.Index), sw.U.Pos(sw.S.Pos), "not a constant command name")
+			continue
+		}
+		names = append(names, strings.Trim(tv.Value.ExactString(), `"`))
+	}
+	sort.Strings(names)
+	r.Min("C07-T2", len(names), 3, "batchable commands")
+	// multi-key forms that IsBatchable refuses
+	refused := map[string]bool{}
+	if u := c.unit("C07-T2", "node.(*kvbatchOperator).IsBatchable"); u != nil {
+		for _, s := range u.Match(an.Return()) {
+			if len(s.Ret.Results) == 1 && u.C.Term(s.Ret.Results[0]) == "false" {
+				pc := u.SitePC(s)
+				for _, n := range names {
+					if flow.Implies(pc, c.W.Parse(`p0 == "`+n+`" && 2 < len(p2)`)).Holds {
+						refused[n] = true
+					}
+				}
+			}
+		}
+	}
+	for _, n := range names {
+		u := handler[n]
+		if u == nil {
+			r.Unknown("C07-T2", "batchable command "+n+": apply handler", "", "not registered with RegisterInternal")
+			continue
+		}
+		nCalls := 0
+		single := true
+		why := ""
+		for _, s := range u.Sites {
+			if s.Kind != flow.SCall || s.Call == nil || s.Callee == nil {
+				continue
+			}
+			q := an.CalleeName(s)
+			if !strings.HasPrefix(q, "node.(*KVStore).") && !strings.HasPrefix(q, "rockredis.(*RockDB).") {
+				continue
+			}
+			nCalls++
+			// the key handed to the store: the first []byte / ...[]byte / record-list parameter after the timestamp
+			sig := s.Callee.Type().(*types.Signature)
+			ki := -1
+			for i := 0; i < sig.Params().Len(); i++ {
+				if b, ok := sig.Params().At(i).Type().Underlying().(*types.Basic); ok && b.Kind() == types.Int64 && i == 0 {
+					continue
+				}
+				ki = i
+				break
+			}
+			if ki < 0 || ki >= len(s.Call.Args) {
+				continue
+			}
+			kt := u.C.Term(s.Call.Args[ki])
+			if kt != "p0.Args[1]" || (s.Call.Ellipsis.IsValid() && ki == len(s.Call.Args)-1) {
+				single = false
+				why = fmt.Sprintf("%s is called with %s as its key argument", q, kt)
+			}
+		}
+		construct := fmt.Sprintf("batchable command %s (%s): the store is given exactly the key registered for the duplicate check (cmd.Args[1])", n, u.Name)
+		switch {
+		case nCalls == 0:
+			r.Unknown("C07-T2", construct, "", "no store call found in the handler")
+		case single:
+			r.Ok("C07-T2", construct, "", "")
+		case refused[n]:
+			r.Ok("C07-T2", construct, "", "multi-key handler, but IsBatchable refuses "+n+" with more than one key")
+		default:
+			r.Bad("C07-T2", construct, u.Pos(u.Body.Pos()), why+"; keys other than the first are not in the duplicate-check map, so a later command of the same batch on such a key is evaluated against the store as it was before this command")
+		}
+	}
 }
